@@ -185,6 +185,32 @@ func (fr *frame) lockRank(key, what string, pos ssa.Instruction) {
 	fr.u.addObl("lockrank", fmt.Sprintf("blocking acquisition of %s (level %d): no lock of level >= %d is held (%s)", what, lv, lv, strings.Join(names, ", ")), fr.pos(pos.Pos()), fr.cur, goal)
 }
 
+// chanBlock (opt-in, contract: safety +chanblock): a plain channel send or receive outside a select
+// may block for as long as the peer pleases; doing so while a lock with a declared level is held
+// is the channel form of a lock-order violation (the peer may be waiting for that very lock).
+func (fr *frame) chanBlock(what string, pos token.Pos) {
+	u := fr.u
+	if fr.contract == nil || !fr.contract.Safety["chanblock"] {
+		return
+	}
+	levels := u.eng.CS.LockLevels
+	var ks []string
+	for k := range levels {
+		ks = append(ks, k)
+	}
+	sort.Strings(ks)
+	if len(ks) == 0 {
+		return
+	}
+	var parts, names []string
+	for _, k := range ks {
+		u.regKey(k, "(Array Int Int)")
+		parts = append(parts, fmt.Sprintf("(forall ((r Int)) (= (select %s r) 0))", fr.st.get(u, k)))
+		names = append(names, strings.TrimPrefix(k, "Held."))
+	}
+	fr.u.addObl("chanblock", fmt.Sprintf("blocking %s: no lock with a declared level is held (%s)", what, strings.Join(names, ", ")), fr.pos(pos), fr.cur, "(and true "+strings.Join(parts, " ")+")")
+}
+
 // heldTerm: spec builtin held(e) / heldW(e) / heldR(e) / unheld(e)
 func (e *specEnv) heldTerm(fun string, x Expr) string {
 	u := e.u
